@@ -100,6 +100,15 @@ func checkValidity(
 	if err := header.ValidateBasic(); err != nil {
 		return err
 	}
+	// headers are indexed by block number only, consensus states by full height:
+	// all headers of a client must carry the client's revision number
+	if header.Height.RevisionNumber != clientState.Header.Height.RevisionNumber {
+		return errorsmod.Wrapf(
+			clienttypes.ErrInvalidHeader,
+			"header revision number %d does not match client revision number %d",
+			header.Height.RevisionNumber, clientState.Header.Height.RevisionNumber,
+		)
+	}
 	return verifyHeader(ctx, cdc, store, clientState, header)
 }
 
